@@ -122,7 +122,7 @@ def main():
     nmax = 4 if ck.quick else 6
     cases = []
     for _ in range(400 if ck.quick else 3000):
-        n = ck.rng.choice([1, 2, 3] + ([4] if ck.rng.random() < 0.5 else []) + ([5, 6] if (nmax == 6 and ck.rng.random() < 0.1) else []))
+        n = ck.rng.choice([1, 2, 3] + ([4] if ck.rng.random() < 0.5 else []) + ([5] if ck.rng.random() < 0.06 else []) + ([5, 6] if (nmax == 6 and ck.rng.random() < 0.1) else []))
         kind, m = gen_matrix(ck.rng, n)
         c = {"op": "decomp", "n": n, "matrix": m, "kind": kind, "strings": all_pstr(n) if n <= 3 else []}
         if kind in ("diagonal",) or ck.rng.random() < 0.2:
